@@ -9,7 +9,7 @@
    invariant) - full statements below, covered per run by the kernel-evaluated certificate scc_check
    (sound: C14_scc_check_sound) on the model's and the implementation's outputs. *)
 From Coq Require Import List Arith Bool.
-From SV Require Import C14.Scc C14.SccSpec C14.Main C14.SccSpecProofs.
+From SV Require Import C14.Scc C14.SccSpec C14.Main C14.SccSpecProofs C14.ClosureComplete.
 Import ListNotations.
 
 (* ---------------------------------------------------------------- (1) topological_sort *)
@@ -67,6 +67,15 @@ Print Assumptions C14_topo_check_sound.
 Theorem C14_cond_check_sound : forall g nodes out, cond_check g nodes out = true -> cond_spec g nodes out.
 Proof. exact cond_check_sound. Qed.
 Print Assumptions C14_cond_check_sound.
+
+(* the Gallina transitive closure used by the certificates is exactly the inductive reachability *)
+Theorem C14_reach_closure_correct : forall g nodes s x, reachb g nodes s x = true <-> reach g nodes s x.
+Proof. exact reachb_reach. Qed.
+Print Assumptions C14_reach_closure_correct.
+
+Theorem C14_has_cycleb_correct : forall g nodes, has_cycleb g nodes = true <-> has_cycle g nodes.
+Proof. exact has_cycleb_iff. Qed.
+Print Assumptions C14_has_cycleb_correct.
 
 (* full statements not proved in general: Main.scc_classes_full_statement, Main.scc_order_full_statement *)
 Theorem C14_scc_classes_order_partial : forall g nodes cs,
